@@ -61,3 +61,6 @@ if opt('--dump'):
     pc2,g,sk = subs[0]
     stages = smt.build_stages(pc2, g, sk, ob.idx, hint_fn(sk), c.float)
     open(opt('--dump')[0],'w').write(smt.to_smt2(dict(stages)['full']))
+if opt('--atom'):
+    from pyvc.types import atom_name
+    for a in opt('--atom'): print('ATOM', a, repr(atom_name(int(a))))
